@@ -33,7 +33,7 @@ type c12Case struct {
 	Rebuilt bool `json:"rebuilt,omitempty"`
 }
 
-var c12Universe = []string{"a", "ab", "a_", "a%", "A", "a b", ".a", "a.", "é", "_", "%", "aa", "b", "B", "a\\", "a?", "a*", "[ab]", "a[b]", "?", "*", "😀", "𝄞a", "a😀", "\uffff", "\uffffz", "~", "\x7f", "..x", "...", "a..", "-"}
+var c12Universe = []string{"a", "ab", "a_", "a%", "A", "a b", ".a", "a.", "é", "_", "%", "aa", "b", "B", "a\\", "a?", "a*", "[ab]", "a[b]", "?", "*", "😀", "𝄞a", "a😀", "\uffff", "\uffffz", "~", "\x7f", "..x", "...", "a..", "-", "\U0010ffff", "\U0010ffffz"}
 
 // sqlLike reports whether name matches the LIKE pattern (ASCII case-insensitive, _ and %).
 func sqlLike(pattern, name string) bool {
